@@ -67,12 +67,20 @@ def violated_names(out):
     return names
 
 
-def run_config(pid, name, consts, invariants, actprops, workdir, obs_sample, replay=True):
+KINDS = {
+    "managed": {"spec": "ManagedPool.tla", "monitor": "ManagedObs.tla", "base": configs.BASE, "hcfg": tlcgraph.harness_cfg},
+    "unmanaged": {"spec": "UnmanagedPool.tla", "monitor": "UnmanagedObs.tla", "base": configs.UBASE,
+                  "hcfg": tlcgraph.harness_cfg_unmanaged},
+}
+
+
+def run_config(pid, name, consts, invariants, actprops, workdir, obs_sample, replay=True, kind="managed"):
     """TLC on one configuration (+ tour + replay).  Returns a dict of measurements."""
+    K = KINDS[kind]
     os.makedirs(workdir, exist_ok=True)
     cfg_path = os.path.join(workdir, name + ".cfg")
-    open(cfg_path, "w").write(configs.cfg_text(consts, invariants, actprops))
-    spec = os.path.join(ROOT, "spec", "ManagedPool.tla")
+    open(cfg_path, "w").write(configs.cfg_text(consts, invariants, actprops, base=K["base"]))
+    spec = os.path.join(ROOT, "spec", K["spec"])
     dot = os.path.join(workdir, name + ".dot") if replay else None
     r = run_tlc(spec, cfg_path, workdir, dump_dot=dot)
     info = {"config": name, "constants": {k: v for k, v in consts.items()}, "states": r["distinct"],
@@ -87,12 +95,12 @@ def run_config(pid, name, consts, invariants, actprops, workdir, obs_sample, rep
     nodes, edges, init = tlcgraph.load_dot(dot)
     sites = tlcgraph.site_map(spec)
     paths = tlcgraph.tour(nodes, edges, init, 400)
-    full = dict(configs.BASE)
+    full = dict(K["base"])
     full.update(consts)
-    hcfg = tlcgraph.harness_cfg(full)
+    hcfg = K["hcfg"](full)
     paths_file = os.path.join(workdir, name + ".paths.jsonl")
     meta = {"nodes": len(nodes), "edges": len(edges), "paths": len(paths), "cfg_file": name}
-    nsteps = tlcgraph.write_paths(paths_file, hcfg, nodes, edges, paths, sites, meta)
+    nsteps = tlcgraph.write_paths(paths_file, hcfg, nodes, edges, paths, sites, meta, kind=kind)
     os.remove(dot)
     info.update({"edges": len(edges), "paths": len(paths), "tour_steps": nsteps, "tour_s": round(time.time() - t0, 2)})
     # replay on the real code
@@ -108,7 +116,7 @@ def run_config(pid, name, consts, invariants, actprops, workdir, obs_sample, rep
     info.update({"replayed": rr["paths"], "conform": rr["conform"], "nonconform": rr["nonconform"], "hung": rr["hung"],
                  "replay_s": round(time.time() - t0, 2), "first_divergences": rr["first_divergences"][:3],
                  "nonconform_ids": rr["nonconform_ids"][:50]})
-    mon = obsmon.monitor(obs_file, hcfg, os.path.join(workdir, "obsmon_" + name))
+    mon = obsmon.monitor(obs_file, hcfg, os.path.join(workdir, "obsmon_" + name), spec=K["monitor"])
     info.update({"obs_events": mon["events"], "monitor_s": round(mon["tlc_s"], 2), "viol": mon["viol"]})
     info["paths_file"] = paths_file
     info["hcfg"] = hcfg
@@ -179,8 +187,10 @@ def managed_check(pid, tier, seed):
     violations = []   # (config, pred, run, i)
     for name, consts, replay in spec["configs"][tier]:
         log("[%s] config %s: TLC%s ..." % (pid, name, " + tour + replay" if replay else " (model checking only)"))
-        info = run_config(pid, name, consts, configs.STRUCT + spec["invariants"], spec["actprops"], workdir,
-                          obs_sample=spec.get("obs_sample", {}).get(tier, 50), replay=replay)
+        kind = spec.get("kind", "managed")
+        struct = configs.STRUCT if kind == "managed" else configs.USTRUCT
+        info = run_config(pid, name, consts, struct + spec["invariants"], spec["actprops"], workdir,
+                          obs_sample=spec.get("obs_sample", {}).get(tier, 50), replay=replay, kind=kind)
         infos.append(info)
         log("[%s]   %d distinct states, %d transitions, depth %d, %.1fs" % (pid, info["states"], info["transitions"], info["depth"], info["tlc_s"]))
         if replay:
@@ -206,7 +216,7 @@ def managed_check(pid, tier, seed):
         rp = extract_path(info["paths_file"], run)
         if rp is None:
             continue
-        rp.update({"kind": "managed-path", "property": pid, "predicate": pred, "config": name, "event": i})
+        rp.update({"kind": "path", "pool": spec.get("kind", "managed"), "property": pid, "predicate": pred, "config": name, "event": i})
         fn = os.path.join(vdir, "%s_%s_%s_run%d.json" % (pid, name, pred, run))
         json.dump(rp, open(fn, "w"))
         print("VIOLATION property=%s replay=%s" % (pid, fn), flush=True)
@@ -231,7 +241,9 @@ def managed_check(pid, tier, seed):
         "exhaustive": True,
         "configs": [{k: v for k, v in x.items() if k not in ("paths_file", "hcfg", "viol", "actions_taken")} for x in infos],
         "actions_covered": sorted(set(a for x in infos for a, n in x["actions_taken"].items() if n > 0)),
-        "spec_invariants": configs.STRUCT + spec["invariants"], "spec_action_properties": spec["actprops"],
+        "spec": KINDS[spec.get("kind", "managed")]["spec"],
+        "spec_invariants": (configs.STRUCT if spec.get("kind", "managed") == "managed" else configs.USTRUCT) + spec["invariants"],
+        "spec_action_properties": spec["actprops"],
         "monitor_predicates": spec["preds"],
         "replay_steps_on_code": sum(x.get("tour_steps", 0) for x in infos),
         "drift_runs": drift,
@@ -255,7 +267,7 @@ def replay_file(fn):
     os.makedirs(workdir)
     pf = os.path.join(workdir, "one.paths.jsonl")
     with open(pf, "w") as f:
-        f.write(json.dumps({"cfg": rp["cfg"]}) + "\n")
+        f.write(json.dumps({"cfg": rp["cfg"], "kind": rp.get("pool", "managed")}) + "\n")
         f.write(json.dumps({"id": 0, "steps": rp["steps"]}) + "\n")
     res = os.path.join(workdir, "result.json")
     obs = os.path.join(workdir, "obs.ndjson")
@@ -264,7 +276,7 @@ def replay_file(fn):
     print("conforms to the specification:", rr["conform"] == 1)
     for d in rr["first_divergences"]:
         print("first divergence at step %s after %s: %s" % (d["div_step"], d["div_action"], d["div_what"]))
-    mon = obsmon.monitor(obs, rp["cfg"], os.path.join(workdir, "obsmon"))
+    mon = obsmon.monitor(obs, rp["cfg"], os.path.join(workdir, "obsmon"), spec=KINDS[rp.get("pool", "managed")]["monitor"])
     evs = [json.loads(l) for l in open(obs)]
     rc = 0
     for pred, where in sorted(mon["viol"].items()):
